@@ -342,6 +342,10 @@ func (in *Inst) BlockTokens(name map[hash.Event]int) []string {
 	return t
 }
 
+// Stat is set by the harness commands to vu.Stat (kept as a variable so that this package does not
+// depend on the framework).
+var Stat = func(string) {}
+
 // ---------- generator ----------
 
 type GenCfg struct {
@@ -536,6 +540,12 @@ func Generate(r *rand.Rand, s *Scn, cfg GenCfg) {
 			return
 		}
 		if high == 0 {
+			// the real Build failed on an event whose parents are all processed: keep it (the
+			// reference decides what should have happened) but do not build on it
+			Stat("gen_build_failed_kept")
+			ev.Frame = 1
+			s.Evs = append(s.Evs, ev)
+			next = ev.ID + 1
 			continue
 		}
 		ev.Frame = high
@@ -562,6 +572,7 @@ func Generate(r *rand.Rand, s *Scn, cfg GenCfg) {
 				pr.Frame = 0
 			}
 			if pr.Frame != high {
+				Stat("gen_probe")
 				next++
 				s.Evs = append(s.Evs, pr)
 				ev.ID = next
@@ -569,6 +580,7 @@ func Generate(r *rand.Rand, s *Scn, cfg GenCfg) {
 		}
 		if spf > 0 && high > spf && r.Float64() < cfg.LowerP {
 			ev.Frame = spf + uint32(r.Intn(int(high-spf)))
+			Stat("gen_lowered_frame")
 		}
 		e = EventOf(s, ev, ids, curEp)
 		code, crashed := safeProcess(ref, e)
@@ -577,6 +589,12 @@ func Generate(r *rand.Rand, s *Scn, cfg GenCfg) {
 			return
 		}
 		if code != 0 {
+			// the reference instance's real Process rejected an event the generator considers valid
+			// (built frame or a lowered allowed frame): keep it in the scenario with that outcome to be
+			// judged by the reference, never drop it silently; nothing is built on top of it
+			Stat("gen_ref_rejected_kept_" + strconv.Itoa(code))
+			s.Evs = append(s.Evs, ev)
+			next = ev.ID + 1
 			continue
 		}
 		next = ev.ID + 1
@@ -869,7 +887,11 @@ func Order(s *Scn, kind int, seed int64) []int {
 }
 
 // LinearExtensions enumerates the parents-first orders of s.Evs (at most limit of them).
+// Truncated reports whether the last LinearExtensions call hit its limit.
+var Truncated bool
+
 func LinearExtensions(s *Scn, limit int) [][]int {
+	Truncated = false
 	n := len(s.Evs)
 	pos := map[int]int{}
 	for i, e := range s.Evs {
@@ -881,6 +903,7 @@ func LinearExtensions(s *Scn, limit int) [][]int {
 	var rec func()
 	rec = func() {
 		if len(out) >= limit {
+			Truncated = true
 			return
 		}
 		if len(cur) == n {
